@@ -420,6 +420,10 @@ CHECKS["C08"] = {
     "assumptions": ["cooperative goroutines; channels as FIFO queues", "clock: time.Now() in watcher.go/reobserve.go redirected to the harness clock; UnixMilli of a clock reading is its own non-decreasing variable",
                     "encoding/json.Marshal (log fields) opaque; zap/prometheus no-ops; pkg/alephium loaded through the stripped-p2p.Run overlay"],
 }
+# C11 on the re-observation path: every event of the transaction is decoded from ITS OWN fields (two events in one transaction)
+CHECKS["C11"]["runs"].append({"pkg": "./pkg/alephium", "entry": "VerifC08_Reobserve", "reach": ["forwarded", "nothing-forwarded"], "opts": _ALPH_OPTS,
+                              "shards": {"quick": ["mainnet=0;txevents=2;failAt=0"]}, "timeout": {"quick": 2400, "thorough": 30000}})
+CHECKS["C11"]["bounds"]["quick"]["re-observation"] = "C08's re-observation harness with two events in the transaction (testnet, no API failure): each forwarded message carries the fields of its own event"
 CHECKS["C09"] = {
     "runs": [
         {"pkg": "./pkg/alephium", "entry": "VerifC09_Fetch", "reach": ["delivered", "skipped", "end"], "opts": _ALPH_OPTS,
@@ -477,7 +481,7 @@ GENERATORS = {("node", "./pkg/vaa"): [_gen_c04], ("node", "./pkg/processor"): [_
 
 # ---- level texts for checks whose claim is deliberately narrower than the property statement ----
 _BASE_LEVEL = "Bounded symbolic execution of the real functions; an SMT solver decides the assertions for every value inside the stated bounds; silent outside them."
-CHECKS["C07"]["level_text"] = "Symbolic execution of CalculateQuorum (node, and the copy the explorer links) for a symbolic n over the whole domain 0..255 - exhaustive for the property's domain - and solver comparison with the formulas extracted from the Solidity and Ralph contracts."
+CHECKS["C07"]["level_text"] = "Symbolic execution of CalculateQuorum (node, and the copy the explorer links) for a symbolic n over the whole domain 0..255 - exhaustive for the property's domain - and solver comparison with the formulas extracted from the Solidity and Ralph contracts and with the conditions under which the two contracts apply them (symbolic signature count 0..255)."
 CHECKS["C17"]["level_text"] = _BASE_LEVEL + " Schedules: cooperative goroutines with pre-emption explored before every channel/mutex operation of the two posters; no weak-memory effects."
 CHECKS["C18"]["level_text"] = "PARTIAL: bounded symbolic execution of (a) the supervisor's sequential decision procedures (death classification, restart scan, kill, start wrapper) from arbitrary node states of trees with up to 4 nodes and (b) the real processor loop with a root and one child service under cooperative scheduling (every combination of seven per-instance behaviours, two scans, then cancellation); pre-emptive interleavings, scan timing and back-off durations are not decided."
 CHECKS["C19"]["level_text"] = _BASE_LEVEL + " Concurrency: a lookup is forked after every store of the appending writer (sequentially consistent interleavings at store granularity); weak-memory effects and the race detector's verdict are outside."
